@@ -7,6 +7,7 @@ import (
 	"context"
 	"errors"
 	"fmt"
+	"io"
 
 	"github.com/go-netty/go-netty/zz_verif/explore"
 	"github.com/go-netty/go-netty/zz_verif/hlib"
@@ -156,6 +157,66 @@ func overlap(cfg hlib.ChanCfg, arg closeArg, eps []hlib.EP, bound int) *explore.
 	}
 }
 
+// straddleReader delivers its first chunk at once and the second only after Close
+// has returned (a slow reader): the chunk written after the close must make
+// ReadFrom fail instead of reporting success for discarded data.
+type straddleReader struct {
+	o     *obs
+	calls int
+}
+
+func (r *straddleReader) Read(p []byte) (int, error) {
+	r.calls++
+	switch r.calls {
+	case 1:
+		return copy(p, mock.Payload(1, 4)), nil
+	case 2:
+		vsched.Op("reader waits for close", nil, vsched.RD, func() bool { return r.o.closeEnd >= 0 })
+		return copy(p, mock.Payload(2, 4)), nil
+	}
+	return 0, io.EOF
+}
+
+func straddle(cfg hlib.ChanCfg, arg closeArg, bound int) *explore.Scenario {
+	return &explore.Scenario{
+		Name:  fmt.Sprintf("readfrom-straddles-close/%s/close(%s)", cfg, arg.name),
+		Bound: bound,
+		Cache: true,
+		Cfg:   vsched.Config{MaxSteps: 6000},
+		Init:  func() any { return &obs{closeEnd: -1} },
+		Body: func(v any) {
+			o := v.(*obs)
+			o.env = hlib.NewEnv(cfg, nil)
+			c := hlib.NewCall(1, hlib.ReadFrom, 8)
+			o.calls = append(o.calls, c)
+			w := vsched.Go("writer", func() {
+				c.Begin = hlib.Stamp("begin")
+				c.N, c.Err = o.env.Ch.ReadFrom(&straddleReader{o: o})
+				c.End = hlib.Stamp("end")
+			})
+			cl := vsched.Go("closer", func() {
+				o.env.Ch.Close(arg.err)
+				o.closeEnd = hlib.Stamp("close-returned")
+			})
+			vsched.Join(w)
+			vsched.Join(cl)
+		},
+		Outcome: func(x *vsched.Exec, v any) string {
+			o := v.(*obs)
+			return o.env.T.LogString() + " | " + o.calls[0].String()
+		},
+		Check: func(x *vsched.Exec, v any) []explore.Finding {
+			o := v.(*obs)
+			c := o.calls[0]
+			if c.End >= 0 && c.Err == nil {
+				return []explore.Finding{{Key: fmt.Sprintf("success-after-close/ReadFrom(chunk after close)/%s/close(%s)", kindOf(cfg), arg.name),
+					Msg: fmt.Sprintf("ReadFrom on %s returned (n=%d, nil) although its second chunk was read and submitted after Close(%s) had returned (that chunk is discarded); log: %s", cfg, c.N, arg.name, o.env.T.LogString())}}
+			}
+			return nil
+		},
+	}
+}
+
 func build(tier string) []*explore.Scenario {
 	var scs []*explore.Scenario
 	cfgs := []hlib.ChanCfg{{0, false}, {2, true}, {2, false}}
@@ -179,6 +240,11 @@ func build(tier string) []*explore.Scenario {
 			for _, eps := range pairs {
 				scs = append(scs, overlap(cfg, arg, eps, bound))
 			}
+		}
+	}
+	for _, cfg := range cfgs {
+		for _, arg := range closeArgs[:2] {
+			scs = append(scs, straddle(cfg, arg, bound))
 		}
 	}
 	return scs
